@@ -596,6 +596,44 @@ def unsupported_literal_texts():
     return [sh.format(u=u) for sh in LITERAL_SHAPES for u in UNSUPPORTED_ATOMS]
 
 
+# texts that are valid Python str but awkward to encode / display: lone surrogates (a truncated emoji as a
+# JSON-decoding client delivers it), a surrogate pair written as two code units, non-characters, NUL,
+# C1 controls, a very long combining sequence, bidi overrides
+UNICODE_EDGES = {
+    "lone-high-surrogate": "\ud83d",
+    "lone-low-surrogate": "\udc00",
+    "pair-as-two-units": "\ud83d\ude00",
+    "noncharacters": "\ufffe\uffff",
+    "nul": "a\x00b",
+    "c1-controls": "\x80\x85\x9f",
+    "long-combining": "a" + "\u0301" * 3000,
+    "bidi-override": "\u202eabc\u202d\u2066x\u2069",
+    "astral+bom": "\ufeff\U0001F600\U000E0001",
+}
+# several of them in one text (quick tier)
+UNICODE_COMBOS = ["\ud83d", "x\udc00 \ud83d\ude00 y", "\ufffe\uffff a\x00b \x80\x85\x9f", "a" + "\u0301" * 3000 + " \u202eabc\u202d \ufeff"]
+
+
+def unicode_edge_texts(mode, tier):
+    """LLM outputs carrying the edge text, raw and inside a well-formed message of the mode's format
+    (so that it reaches the bot message, the history and everything computed from them)."""
+    us = list(UNICODE_EDGES.values()) + UNICODE_COMBOS if tier == "thorough" else UNICODE_COMBOS
+    out = []
+    for u in us:
+        out.append(u)
+        if mode == "v1_single_call":
+            out.append(f'  ask x\nbot inform y\n  "Result {u}."')
+        elif mode in ("v2_value", "v2_saylike"):
+            out.append(f"'Result {u}.'")
+        elif mode == "v2_llm":
+            out.append(f'bot say result\nbot action: bot say "Result {u}."')
+        elif mode in ("v1_dialog", "v1_multi_step"):
+            out.append(f'  "Result {u}."')
+        else:
+            out.append(f"Result {u}.")
+    return out
+
+
 _MUT_FRAGS = ['"', "\n", "\nuser ", "\nbot ", "$secret", "{{ 7*191 }}", "{$x}", "\x00", "  ", "\t", "#", ":", "'", "\\n", "...", " and ", " or ", "(", ")",
               '\nuser "x"', "define flow y\n", "flow z\n", "User: ", ",", "é"]
 
@@ -1183,6 +1221,7 @@ def gen_cases(rng, tier):
             else:
                 pool = list(CORE) + [t for _, t in rng.sample(corpus, 3)] + [t for _, t in rng.sample(muts, 2)]
             pool += list(dict.fromkeys(LITERAL_TEXTS.values()))
+            pool += unicode_edge_texts(mode, tier)
             for t in dict.fromkeys(pool):
                 cases.append({"mode": mode, "turns": TURNS[mode], "subst": {str(k): t}})
     # the bot intent `$name` for every context variable name, at the call that yields the bot intent
